@@ -3,7 +3,7 @@
    removed, escape-aware label walk) and dba5ede (the refresh parses downloads only). *)
 From Coq Require Import Permutation.
 From Sdns Require Import Common.Base Gen.C18 C18.Model C18.Spec
-  C18.Proofs_match C18.Proofs_disk C18.Proofs_reload C18.Proofs_final.
+  C18.Proofs_match C18.Proofs_disk C18.Proofs_reload C18.Proofs_final C18.Proofs_equiv C18.Proofs_refresh.
 Open Scope N_scope.
 
 (* Matching is exact on whole labels, case-insensitive, whitelist first: for every
@@ -145,3 +145,55 @@ Theorem refresh_leaves_disk_alone : forall dl s,
   s_version (sys_refresh dl s) = s_version s /\ s_last (sys_refresh dl s) = s_last s.
 Proof. exact sys_refresh_disk. Qed.
 Print Assumptions refresh_leaves_disk_alone.
+
+(* ---- phase 3 *)
+
+(* loadInitial builds a memory that satisfies the invariant whatever the files contain
+   (configured entries not ending in a lone backslash) ... *)
+Theorem load_initial_invariant : forall wl bl files, Forall sane bl -> mem_good (load_initial wl bl files).
+Proof. exact load_initial_good. Qed.
+Print Assumptions load_initial_invariant.
+
+(* ... so the whole life cycle needs no hypothesis on the state: start on a directory,
+   any interleaving of API calls, all persists done, restart -> same blocking *)
+Theorem end_to_end : forall wl l0 s,
+  let start := fun l => load_initial wl [] (match l with Some f => [f] | None => [] end) in
+  csteps (init (start l0) l0) s -> s_pending s = [] -> 0 < s_version s ->
+  forall q, bl_exists (start (s_local s)) q = bl_exists (s_mem s) q.
+Proof. exact end_to_end_lemma. Qed.
+Print Assumptions end_to_end.
+
+(* the one hypothesis left on API keys (not ending in a lone backslash) is needed *)
+Theorem sane_keys_needed :
+  let k := [120; 92] in
+  ~ sane k /\
+  bm (snd (set_locked k (mk_bl [] [] []))) = [[120; 92; 46]] /\
+  bm (reload [[120; 92; 46]] []) = [[120; 92; 46; 46]] /\
+  bl_exists (mk_bl [[120; 92; 46]] [] []) k = true /\
+  bl_exists (reload [[120; 92; 46]] []) k = false.
+Proof. exact sane_needed_example. Qed.
+Print Assumptions sane_keys_needed.
+
+(* the finite test Run.spec_case uses for "these two lists block the same names" is sound *)
+Theorem spec_equiv_sound : forall z Wl M1 W1 M2 W2,
+  spec_equiv_n z Wl M1 W1 M2 W2 = true ->
+  forall q, spec_blocked_b M1 W1 Wl q = spec_blocked_b M2 W2 Wl q.
+Proof. exact spec_equiv_n_sound. Qed.
+Print Assumptions spec_equiv_sound.
+
+(* API calls interleaved with refreshes that bring remote lists: the file is the newest
+   saving call's list, the memory is that plus what the refreshes added since *)
+Theorem refresh_with_downloads : forall b0 l0 s,
+  gsteps (init b0 l0) s -> s_pending s = [] ->
+  (s_version s = 0 /\ grows b0 (s_mem s) /\ s_local s = l0) \/
+  (s_last s = s_version s /\
+   exists ex wi b, Permutation ex (bm b) /\ Permutation wi (bwild b) /\ grows b (s_mem s) /\
+                   s_local s = Some (snap_bytes (mk_snap (s_version s) ex wi))).
+Proof. exact refresh_with_downloads_lemma. Qed.
+Print Assumptions refresh_with_downloads.
+
+(* and a refresh never unblocks a name *)
+Theorem refresh_never_unblocks : forall dl s q,
+  bl_exists (s_mem s) q = true -> bl_exists (s_mem (sys_refresh dl s)) q = true.
+Proof. exact refresh_never_unblocks_lemma. Qed.
+Print Assumptions refresh_never_unblocks.
